@@ -232,9 +232,9 @@ def check_state(ctx, name, consts, ref, rp, by_hist):
 def knot_insertion_cases(ctx):
     """nested knot vectors (non-uniform, repeated knots, inserted knots coinciding with existing ones)"""
     from pyiga import bspline
-    consts = dict(PMax=3 if not ctx.thorough else 4, BMax=4 if not ctx.thorough else 6, Step=25 if not ctx.thorough else 2)
+    consts = dict(PMax=3 if not ctx.thorough else 4, BMax=4 if not ctx.thorough else 5, Step=25 if not ctx.thorough else 7)
     cfg = write_cfg(ctx.scratch / 'ki.cfg', consts, invariants=['Preserves', 'EmitCase'])
-    res = ctx.tlc('KnotInsertCases', cfg, workers=4 if not ctx.thorough else 12, timeout=3000)
+    res = ctx.tlc('KnotInsertCases', cfg, workers=4 if not ctx.thorough else 12, timeout=6000)
     cases = res.recs('KI')
     if not cases:
         raise MachineryError('KnotInsertCases emitted nothing')
